@@ -362,6 +362,7 @@ class Response(BaseResponse):
         if isinstance(data, str):
             data = data.encode('utf-8')
         self._content_length += len(data)
+        self.__buffer.seek(0, 2)    # always append, initial data included
         self.__buffer.write(data)
 
     def __end_of_response__(self):
